@@ -39,7 +39,7 @@ def check(gen_dir, out_dir, only=None):
             want = [expected(r) for r in m['records']]
             shp = open(os.path.join(gen_dir, name + '.shp'), 'rb').read()
             shx = open(os.path.join(gen_dir, name + '.shx'), 'rb').read()
-            ctx = {'file': name, 'physical_order': perm, 'filler_mode': m['filler_mode'], 'shp_hex': shp[:3000].hex(), 'shx_hex': shx.hex()}
+            ctx = {'file': name, 'physical_order': perm[:24], 'filler_mode': m['filler_mode'], 'shp_hex': shp[:3000].hex(), 'shx_hex': shx[:1200].hex()}
             d = decoded.get(name)
             if d is None or 'panic' in d or 'open_idx_err' in d:
                 viol('%s/%s/open' % (pclass, fclass), name, dict(ctx, got=d))
@@ -84,6 +84,6 @@ def check(gen_dir, out_dir, only=None):
                 viol('%s/%s/nth' % (pclass, fclass), name, dict(ctx, nth=[None if x is None else ('err' if 'err' in x else 'shape') for x in nth]))
             distinct.add((m['type'], tuple(perm), m['filler_mode']))
             if len(samples) < 2 and permuted and m['filler_bytes']:
-                samples.append({'file': name, 'type': shpref.NAMES[m['type']], 'physical_order': perm, 'filler_bytes': m['filler_bytes'],
-                                'seeks_during_indexed_iteration': seeks, 'shx_hex': shx.hex()})
+                samples.append({'file': name, 'type': shpref.NAMES[m['type']], 'physical_order': perm[:24], 'filler_bytes': m['filler_bytes'],
+                                'seeks_during_indexed_iteration': seeks, 'shx_hex': shx[:400].hex()})
     return counters, list(violations.values()), samples, len(distinct)
